@@ -4,6 +4,11 @@
 //! plan handed in as a plain tree over synthetic table schemas, and hands the alternatives back as plain trees
 //! (children = the first logical expression of their memo group).  No statement is executed; nothing here is
 //! used by the database itself.
+//!
+//! Orderings: `ordering_satisfies` is `PhysicalProperties::satisfies` on plain data (the test that decides whether
+//! `CascadesOptimizer::extract_plan` puts a Sort enforcer under an operator), and — once switched on with
+//! `record_plans(true)` — every plan `CascadesOptimizer::optimize` returns is kept as a plain tree (`take_last_plan`):
+//! operator names, the ordering each node declares, the ordering each node requires of each child.
 
 use std::collections::HashMap;
 
@@ -22,7 +27,9 @@ use crate::{
                 FilterOp, IndexRangeBound, JoinOp, LogicalExpr, LogicalOperator, ProjectExpr, ProjectOp,
                 TableScanOp,
             },
-            prop::LogicalProperties,
+            PhysicalPlan,
+            physical::OrderingSpec,
+            prop::{LogicalProperties, PhysicalProperties, RequiredProperties},
             rules::transformation_rules,
         },
     },
@@ -367,4 +374,95 @@ pub fn apply_rules(tables: &[VTable], plan: &VPlan) -> Result<Vec<(String, Vec<V
         out.push((rule.name().to_string(), alts));
     }
     Ok(out)
+}
+
+// ------------------------------------------------------------------------------------------------ orderings
+
+/// one key of a delivered ordering
+#[derive(Clone, Copy, Debug, PartialEq, Eq)]
+pub enum VOrdKey {
+    /// a plain column, ascending?
+    Col(usize, bool),
+    /// an expression that is no plain column (written here as `c0 + 0`), ascending?
+    Expr(bool),
+}
+
+fn ord_expr(k: &VOrdKey) -> (BoundExpression, bool) {
+    let col = |i: usize| {
+        BoundExpression::ColumnBinding(Binding { table_id: None, scope_index: 0, column_idx: i, data_type: DataTypeKind::Int })
+    };
+    match k {
+        VOrdKey::Col(i, asc) => (col(*i), *asc),
+        VOrdKey::Expr(asc) => (
+            BoundExpression::BinaryOp {
+                left: Box::new(col(0)),
+                op: BinaryOperator::Plus,
+                right: Box::new(BoundExpression::Literal { value: DataType::Int(Int32(0)) }),
+                result_type: DataTypeKind::BigInt,
+            },
+            *asc,
+        ),
+    }
+}
+
+/// `PhysicalProperties::satisfies`: does an input that delivers the ordering `delivered` satisfy an operator that
+/// requires its input ordered by `required` = (column, ascending?) …
+pub fn ordering_satisfies(delivered: &[VOrdKey], required: &[(usize, bool)]) -> bool {
+    let have = PhysicalProperties::new().with_ordering(delivered.iter().map(ord_expr).collect());
+    let want = RequiredProperties::new().with_ordering(required.iter().map(|(c, asc)| OrderingSpec::new(*c, *asc)).collect());
+    have.satisfies(&want)
+}
+
+/// a physical plan as a plain tree
+#[derive(Clone, Debug, PartialEq)]
+pub struct VPhys {
+    /// `PhysicalOperator::name`
+    pub op: &'static str,
+    /// the ordering the node declares (`PhysicalPlan::properties`)
+    pub delivers: Vec<VOrdKey>,
+    /// the ordering the node requires of each child (`PhysicalOperator::required_child_properties`)
+    pub requires: Vec<Vec<(usize, bool)>>,
+    pub children: Vec<VPhys>,
+}
+
+static RECORD: std::sync::atomic::AtomicBool = std::sync::atomic::AtomicBool::new(false);
+static LAST_PLAN: std::sync::Mutex<Option<VPhys>> = std::sync::Mutex::new(None);
+
+/// switches the recording of optimized plans on or off (off by default)
+pub fn record_plans(on: bool) {
+    RECORD.store(on, std::sync::atomic::Ordering::SeqCst);
+}
+
+/// the plan returned by the most recent `CascadesOptimizer::optimize` since the last call, if recording is on
+pub fn take_last_plan() -> Option<VPhys> {
+    LAST_PLAN.lock().ok().and_then(|mut g| g.take())
+}
+
+fn phys_tree(p: &PhysicalPlan) -> VPhys {
+    let none = RequiredProperties::new();
+    VPhys {
+        op: p.op.name(),
+        delivers: p
+            .properties
+            .ordering
+            .iter()
+            .map(|(e, asc)| match e {
+                BoundExpression::ColumnBinding(c) => VOrdKey::Col(c.column_idx, *asc),
+                _ => VOrdKey::Expr(*asc),
+            })
+            .collect(),
+        requires: (0..p.children.len())
+            .map(|i| p.op.required_child_properties(i, &none).ordering.iter().map(|s| (s.column_idx, s.ascending)).collect())
+            .collect(),
+        children: p.children.iter().map(phys_tree).collect(),
+    }
+}
+
+/// called by `CascadesOptimizer::optimize` with the plan it is about to return
+pub(crate) fn plan_chosen(p: &PhysicalPlan) {
+    if RECORD.load(std::sync::atomic::Ordering::Relaxed) {
+        if let Ok(mut g) = LAST_PLAN.lock() {
+            *g = Some(phys_tree(p));
+        }
+    }
 }
